@@ -1746,6 +1746,7 @@ func (nz *normaliser) expandBody(h *helper, call *ast.CallExpr, lhs []ast.Expr, 
 					body := cloneNode(k.ifs.Body).List
 					if r, ok := singleReturn(body); ok && substResults(r, lhs, res) {
 						out = []ast.Stmt{r}
+						nGenAssign-- // the generated assignment is gone
 					} else {
 						out = append(out, body...)
 					}
@@ -1880,9 +1881,14 @@ func unifyResults(list []ast.Stmt, sfx string, fin *ast.AssignStmt, fresh map[st
 	rest := list[finAt+1:]
 	list = list[:finAt+1]
 	to := map[string]string{} // helper local → caller variable
+	var resL, resR []ast.Expr // what stays an assignment (a literal result such as nil)
 	for i, r := range fin.Rhs {
 		rid, ok1 := r.(*ast.Ident)
 		lid, ok2 := fin.Lhs[i].(*ast.Ident)
+		if ok2 && (!ok1 || !strings.HasSuffix(rid.Name, sfx)) && pureSyntax(r) && !mentionsSuffix(r, sfx) {
+			resL, resR = append(resL, fin.Lhs[i]), append(resR, r)
+			continue
+		}
 		if !ok1 || !ok2 || !strings.HasSuffix(rid.Name, sfx) || lid.Name == "_" {
 			return append(list, rest...)
 		}
@@ -1890,6 +1896,15 @@ func unifyResults(list []ast.Stmt, sfx string, fin *ast.AssignStmt, fresh map[st
 			return append(list, rest...)
 		}
 		to[rid.Name] = lid.Name
+	}
+	if len(to) == 0 {
+		return append(list, rest...)
+	}
+	residual := func(out []ast.Stmt) []ast.Stmt {
+		if len(resL) > 0 {
+			out = append(out, &ast.AssignStmt{Lhs: resL, Tok: token.ASSIGN, Rhs: resR})
+		}
+		return out
 	}
 	// zero-valued declarations (`var aZq T`) of returned locals whose receiving variable is freshly declared by the
 	// caller's statement are dropped: the caller's variable is that zero value
@@ -1931,7 +1946,7 @@ func unifyResults(list []ast.Stmt, sfx string, fin *ast.AssignStmt, fresh map[st
 				out = append(out, st)
 			}
 		}
-		return append(out, rest...)
+		return append(residual(out), rest...)
 	}
 	// the one declaration of those locals
 	declAt := -1
@@ -2008,7 +2023,18 @@ func unifyResults(list []ast.Stmt, sfx string, fin *ast.AssignStmt, fresh map[st
 		})
 	}
 	list[declAt].(*ast.AssignStmt).Tok = token.ASSIGN
-	return append(list[:len(list)-1:len(list)-1], rest...)
+	return append(residual(list[:len(list)-1:len(list)-1]), rest...)
+}
+
+func mentionsSuffix(e ast.Expr, sfx string) bool {
+	f := false
+	ast.Inspect(e, func(n ast.Node) bool {
+		if id, ok := n.(*ast.Ident); ok && strings.HasSuffix(id.Name, sfx) {
+			f = true
+		}
+		return !f
+	})
+	return f
 }
 
 // unifyNamedResults: see the call site. Only for results of a type whose zero value is nil.
